@@ -410,6 +410,10 @@ class Run(RunBase):
                 c = la.center_vertices
                 m = c[0] + op.get("t", 0.5) * (c[-1] - c[0])
                 pos = [float(m[0]), float(m[1])]
+                if op.get("snap"):
+                    # lattice universes: put the shape on the lattice (its border then often coincides with
+                    # lanelet borders - an exactly decidable tangency)
+                    pos = [float(round(pos[0])) + op["snap"][0], float(round(pos[1])) + op["snap"][1]]
             else:
                 pos = op.get("far", [3000.0, 3000.0])
             shape = build.build_shape(gen._place(op["shape"], pos, op.get("ori", 0.0)))
@@ -431,8 +435,12 @@ class Run(RunBase):
             elif raw is None:
                 verdict = True
             else:
-                poly = geom.ring_polygon(geom.lanelet_ring(la.left_vertices, la.right_vertices))
-                verdict = geom.shape_meets_polygon(raw, poly)
+                ring = geom.lanelet_ring(la.left_vertices, la.right_vertices)
+                poly = geom.ring_polygon(ring)
+                exact = geom.lattice_raw(raw) and geom.lattice_ring(ring)
+                verdict = geom.shape_meets_polygon(raw, poly, exact=exact)
+                if exact and poly.touches(geom._poly_of(raw)):
+                    self.probe("cut-out-shape-exactly-tangent-to-lanelet")
                 if verdict is not None and geom.has_circle(raw) and geom.circle_export_scale() != 1.0:
                     # open finding: the library selects by the disc of radius r/2.  Where that disc gives another
                     # verdict (or lies in its own don't-care band) and the library follows it, report the known
@@ -545,6 +553,10 @@ def _cutter(rng, run, cfg):
             op["t"] = rng.uniform(0.0, 1.0)
             op["shape"] = gen.gen_shape(rng, ("rect", "circ", "poly"), scale=rng.choice([1.0, 3.0, 8.0]))
             op["ori"] = rng.uniform(-3, 3)
+            if run.universe.get("lattice") and rng.chance(0.7):
+                op["shape"] = {"t": "rect", "l": float(rng.choice([2, 4, 8, 12, 16])), "w": float(rng.choice([2, 4, 6]))}
+                op["ori"] = 0.0
+                op["snap"] = [float(rng.randint(-6, 6)), float(rng.randint(-3, 3))]
         if r >= 0.6 or rng.chance(0.3):
             op["exclude"] = sorted(rng.subset(gen.LANELET_TYPES, 0.3, at_least=1))
         yield op
@@ -566,7 +578,8 @@ class C10(Property):
                        "intersection-spans-removed-and-kept-lanelets", "stop-line-reference-cleaned",
                        "exclusive-sign-or-light-removed-with-lanelet", "shared-sign-or-light-kept",
                        "cut-out-by-shape-partial", "cut-out-by-type-partial", "restart-pickle", "restart-deepcopy",
-                       "cut-out-keeps-source-alive", "continued-on-the-other-network", "removal-of-absent-id"]
+                       "cut-out-keeps-source-alive", "continued-on-the-other-network", "removal-of-absent-id",
+                       "cut-out-shape-exactly-tangent-to-lanelet"]
     assumptions = [
         "networks are well formed: every reference names an existing element and a stop line refers only to signs and "
         "lights its lanelet also references (checked on every generated universe)",
@@ -586,9 +599,11 @@ class C10(Property):
 
     def gen_universe(self, rng, cfg):
         ids = gen.IdAlloc(rng, 1, 120)
-        net = gen.gen_network(rng, rows=rng.randint(1, 3), cols=rng.randint(1, 3), ids=ids, overlap=rng.chance(0.4))
+        lattice = rng.chance(0.25)
+        net = gen.gen_network(rng, rows=rng.randint(1, 3), cols=rng.randint(1, 3), ids=ids, overlap=rng.chance(0.4),
+                              lattice=lattice)
         net.pop("_geom", None)
-        return {"network": net}
+        return {"network": net, "lattice": lattice}
 
     def new_run(self, universe, cfg):
         return Run(universe, cfg)
@@ -609,7 +624,7 @@ class C10(Property):
             if net.get(part):
                 if part == "intersections":
                     for i in range(len(net[part])):
-                        yield {"network": dict(net, intersections=net[part][:i] + net[part][i + 1:])}
+                        yield dict(universe, network=dict(net, intersections=net[part][:i] + net[part][i + 1:]))
                 else:
                     for i in range(len(net[part])):
                         gone = net[part][i]["id"]
@@ -624,7 +639,7 @@ class C10(Property):
                                     st[part] = [x for x in st[part] if x != gone]
                                 la["stop"] = st
                             lan.append(la)
-                        yield {"network": dict(net, lanelets=lan, **{part: net[part][:i] + net[part][i + 1:]})}
+                        yield dict(universe, network=dict(net, lanelets=lan, **{part: net[part][:i] + net[part][i + 1:]}))
         if len(net["lanelets"]) > 1:
             for i in range(len(net["lanelets"])):
                 gone = net["lanelets"][i]["id"]
@@ -647,7 +662,7 @@ class C10(Property):
                         incs.append(inc)
                     inters.append(dict(it, incomings=incs, crossings=[x for x in it.get("crossings", []) if x != gone]))
                 signs = [dict(s, first=[x for x in s.get("first", []) if x != gone]) for s in net.get("signs", [])]
-                yield {"network": dict(net, lanelets=keep, intersections=inters, signs=signs)}
+                yield dict(universe, network=dict(net, lanelets=keep, intersections=inters, signs=signs))
 
     def simplify_op(self, op):
         if op["op"] in ("sc_remove", "cut_list") and len(op["ids"]) > 1:
